@@ -253,6 +253,16 @@ class Program:
                 if len(parts) >= 2 and len(fparts) >= 2 and fparts[-2] != parts[-2] and not _is_crate_or_mod(parts[-2], fparts):
                     continue
                 cands.append(f)
+        if len(cands) > 1:
+            # same method generated for several instantiations of the self type (macro-generated impls share one span):
+            # compare the callee's explicit type arguments with the candidates' return / receiver types
+            tm = re.search(r'(\w+)(?:::<(.+)>)?::\w+(?:::<.*>)?$', c)
+            if tm:
+                full = tm.group(1) + ('<%s>' % tm.group(2) if tm.group(2) else '')
+                norm = lambda t: re.sub(r'\s+', '', re.sub(r"^(&mut |&|\*const |\*mut )", '', t.strip()))
+                sel = [f for f in cands if norm(f.ret or '') == norm(full) or (f.params and norm(f.ltypes.get(f.params[0], '')) == norm(full))]
+                if sel:
+                    cands = sel
         # prefer exact-name matches when several free functions share a last component
         if len(cands) > 1:
             exact = [f for f in cands if strip_generics(f.name) == name or strip_generics(f.name).endswith('::' + name)
